@@ -114,6 +114,7 @@ type LoopSpec struct {
 }
 
 type GhostFunc struct {
+	Pure   bool
 	Name   string
 	Params []GhostParam
 	Result string // sort spec (Go-ish type name)
@@ -143,7 +144,14 @@ type TablePin struct {
 	Line int
 }
 
+type GhostField struct {
+	Name string
+	Type string
+	Pkg  string
+}
+
 type SpecFile struct {
+	GhostFields []*GhostField
 	Path      string
 	Pkg       string
 	Imports   map[string]string
@@ -574,7 +582,7 @@ func (p *parser) parsePrimary() Expr {
 var clauseKeywords = map[string]bool{
 	"func": true, "interface": true, "requires": true, "ensures": true, "modifies": true,
 	"let": true, "loop": true, "invariant": true, "ghost": true, "axiom": true, "lemma": true,
-	"table": true, "import": true, "flag": true, "assert": true, "external": true, "loopmodifies": true, "when": true,
+	"table": true, "import": true, "flag": true, "assert": true, "external": true, "loopmodifies": true, "when": true, "ghostfield": true,
 }
 
 type rawClause struct {
@@ -749,6 +757,12 @@ func readSpecFile(path string, pkgPath string) (*SpecFile, error) {
 				if cur == nil {
 					panic(fmt.Errorf("%s:%d: flag outside func", path, rc.line))
 				}
+				if curLoop != nil {
+					for _, f := range strings.Fields(rc.text) {
+						curLoop.Flags[f] = true
+					}
+					break
+				}
 				for _, f := range strings.Fields(rc.text) {
 					if i := strings.IndexByte(f, '='); i > 0 {
 						cur.Flags[f[:i]] = true
@@ -759,8 +773,14 @@ func readSpecFile(path string, pkgPath string) (*SpecFile, error) {
 				}
 			case "ghost":
 				// ghost func name(a T, b U) R [= body]
-				t := strings.TrimSpace(strings.TrimPrefix(strings.TrimSpace(rc.text), "func"))
-				g := &GhostFunc{Pkg: pkgPath}
+				t0 := strings.TrimSpace(rc.text)
+				pure := false
+				if strings.HasPrefix(t0, "pure ") {
+					pure = true
+					t0 = strings.TrimSpace(t0[5:])
+				}
+				t := strings.TrimSpace(strings.TrimPrefix(t0, "func"))
+				g := &GhostFunc{Pkg: pkgPath, Pure: pure}
 				i := strings.IndexByte(t, '(')
 				j := matchParen(t, i)
 				g.Name = strings.TrimSpace(t[:i])
@@ -782,6 +802,13 @@ func readSpecFile(path string, pkgPath string) (*SpecFile, error) {
 					g.Result = rest
 				}
 				sf.Ghosts = append(sf.Ghosts, g)
+				cur, curLoop = nil, nil
+			case "ghostfield":
+				f := strings.Fields(rc.text)
+				if len(f) != 2 {
+					panic(fmt.Errorf("%s:%d: ghostfield name type", path, rc.line))
+				}
+				sf.GhostFields = append(sf.GhostFields, &GhostField{Name: f[0], Type: f[1], Pkg: pkgPath})
 				cur, curLoop = nil, nil
 			case "axiom", "lemma":
 				// lemma name(vars): expr
